@@ -180,13 +180,9 @@ Proof.
     assert (P2 : pres (msgs s) l2).
     { eapply pres_trans; [exact P1|].
       destruct (0 <? c_max_depth c); [|inversion Eroom; subst; apply pres_refl].
-      destruct single.
-      - destruct (c_max_depth c <=? active (msgs s1)); [|inversion Eroom; subst; apply pres_refl].
-        destruct (c_drop_oldest c); try discriminate.
-        destruct (sql_victim (o_gone o) (msgs s1)); inversion Eroom; subst. apply remove_id_pres.
-      - destruct (c_drop_oldest c).
-        + eapply sql_make_room_pres; eauto.
-        + destruct (c_max_depth c <? active (msgs s1) + Z.of_nat (length ies)); inversion Eroom; subst; apply pres_refl. }
+      destruct (c_drop_oldest c).
+      - eapply sql_make_room_pres; eauto.
+      - destruct (c_max_depth c <? active (msgs s1) + Z.of_nat (length ies)); inversion Eroom; subst; apply pres_refl. }
     match type of H with context [if ?b then _ else _] => destruct b end; [|left; simpl in H; apply P1; auto].
     simpl in H. apply Hnew with (l2 := l2); auto.
 Qed.
